@@ -42,6 +42,7 @@ service-subset tokens on the Connect topic; behaviour across `FSM.Restore` while
 are attached (refuted in general, see the counterexamples).
 -/
 import CV.Proofs.StreamClean
+import CV.StreamSubject
 namespace CV.Stream
 
 /-! ## Theorems -/
@@ -519,5 +520,60 @@ theorem guard_repairs_witness :
     monoB (run (Sys.init true) witnessGuard) = false ∧
     (runG (Sys.init true) witnessGuard).clients.map (fun c => (c.m.index, viewEqB c.m.view c.m.expect)) = [(3, true)] := by
   constructor <;> rfl
+
+/-! ## The routing layer: topic-buffer keys of service subjects (`CV.StreamSubject`)
+
+`Sys` above routes events by `Key` equality over the names as written; the real publisher routes
+by `EventSubjectService.String()`. The theorems below are about that function as the code has
+it (compared line by line with the real payload / subscription subjects on every run). -/
+
+/-- **an event reaches exactly the subscribers whose direct query holds the instance.** For all
+    names: the event published for an instance of `svc` with override `ov` (sidecar: destination,
+    terminating gateway: linked service, else none) lands in the topic buffer a subscriber of
+    `name` reads iff the memdb `service` / `connect` index files the instance's effective name
+    and `name` under the same key. (Lower-casing only `Key`, or only the final key on one side,
+    breaks the equivalence.) -/
+theorem event_reaches_exactly_the_matching_subscribers (svc ov name : String) :
+    (publisherSubj svc ov "").str = (subscriberSubj name "").str ↔
+      indexKey (publisherSubj svc ov "").effective = indexKey name := by
+  simp [SvcSubj.str, publisherSubj, subscriberSubj, SvcSubj.effective, indexKey]
+
+/-- the letter case of the instance's own name never matters for routing … -/
+theorem subject_ignores_letter_case (a b peer : String) (h : lower a = lower b) :
+    (publisherSubj a "" peer).str = (publisherSubj b "" peer).str := by
+  simp [SvcSubj.str, publisherSubj, SvcSubj.effective, h]
+
+/-- … nor does the letter case of an override (sidecar destination / linked service) … -/
+theorem override_ignores_letter_case (svc ov ov' peer : String) (h : lower ov = lower ov')
+    (h1 : ov ≠ "") (h2 : ov' ≠ "") :
+    (publisherSubj svc ov peer).str = (publisherSubj svc ov' peer).str := by
+  simp [SvcSubj.str, publisherSubj, SvcSubj.effective, h, h1, h2]
+
+/-- … and an override alone decides the buffer: the proxy's / gateway's own name is irrelevant -/
+theorem override_decides_routing (svc svc' ov peer : String) (h : ov ≠ "") :
+    (publisherSubj svc ov peer).str = (publisherSubj svc' ov peer).str := by
+  simp [SvcSubj.str, publisherSubj, SvcSubj.effective, h]
+
+/-- non-vacuity: a sidecar named `web-proxy` for destination `Web` is delivered to the
+    subscriber of `web`, not to the subscriber of `web-proxy` -/
+theorem routing_nonvacuous :
+    (publisherSubj "web-proxy" "Web" "").str = (subscriberSubj "web" "").str ∧
+    (publisherSubj "web-proxy" "Web" "").str ≠ (subscriberSubj "web-proxy" "").str ∧
+    lower "Web" = lower "wEb" := by
+  refine ⟨by decide, by decide, by decide⟩
+
+/-- **config-entry subjects follow the table index too** (since /repo ee62d21; found by this
+    engine: before, `EventSubjectConfigEntry.String` kept the spelling, a subscriber of `Web` got
+    the snapshot of the entry written as `web` and none of its updates — the harness replays that
+    schedule as a regression witness on every run): names the config-entries table files under
+    one key share one event subject. -/
+theorem cfg_subject_follows_index (a b : String) (h : indexKey a = indexKey b) : cfgSubj a = cfgSubj b := by
+  simp only [indexKey] at h
+  simp [cfgSubj, h]
+
+/-- non-vacuity / regression witness of the repaired shape -/
+theorem cfg_subject_nonvacuous : indexKey "Web" = indexKey "web" ∧ cfgSubj "Web" = cfgSubj "web" ∧
+    cfgSubj "Web" = "default/default/web" := by
+  refine ⟨by decide, by decide, by decide⟩
 
 end CV.Stream
